@@ -88,7 +88,8 @@ def run(ctx):
         ctx,
         MODULE,
         "the MCS-based rows of the shared traced run (plus rows of the other kinds) re-run under thresholds {0, 0.5, 1} and "
-        "{c-0.001, c, c+0.001} for seeded observed confidences c; every run is traced and compared with the Lean row machine "
+        "{c-0.001, c, c+0.001} for seeded observed confidences c, each with a fresh object and again on one long-lived object whose "
+        "confidence_threshold attribute is changed between calls (descending, then ascending); every run is traced and compared with the Lean row machine "
         "(thresholds and confidences as exact binary fractions); statement on the real rows: confidence identical for every "
         "threshold and in [0,1], solved iff confidence >= t, demoted rows name the threshold, all other rows identical, monotone "
         "(non-trivial = row with a confidence; distinct by input and threshold)",
@@ -109,6 +110,27 @@ def run(ctx):
             if tr["error"]:
                 ctx.corr_break("Pipeline:run-raised", {"threshold": t}, "model never raises", tr["error"])
         statement(ctx, runs)
+        # one long-lived Balancer whose public `confidence_threshold` attribute is changed between calls (descending, then
+        # ascending): every call must behave like a fresh object constructed with that threshold
+        from synrbl import Balancer
+
+        obj = Balancer(n_jobs=12, confidence_threshold=max(runs))
+        ts = sorted(runs)
+        for t in ts[::-1] + ts[1:]:
+            obj.confidence_threshold = t
+            tr = pipeline.traced_run(inputs, threshold=t, balancer=obj)
+            pipeline.compare_trace(ctx, tr)
+            ctx.count("reconfigured-object-run")
+            statement(ctx, {ts[0]: runs[ts[0]], t: tr} if t != ts[0] else {t: tr})
+            fresh = runs[t]["out"]
+            if tr["out"] is not None and fresh is not None:
+                for a, b in zip(tr["out"], fresh):
+                    if pipeline.hit_by_real_timeout(a) or pipeline.hit_by_real_timeout(b):
+                        continue
+                    if {k: a.get(k) for k in KEYS} != {k: b.get(k) for k in KEYS}:
+                        ctx.violation("reconfigured-object-differs-from-fresh-object", a["input_reaction"],
+                                      "threshold set to %s on a used object: %s; fresh object: %s" % (t, a, b), "synrbl/balancing.py:confidence_threshold")
+                        break
         ctx.sample({"thresholds": sorted(runs), "rows": len(inputs)})
         demo = [r for t in runs for r in (runs[t]["out"] or []) if r.get("solved_by") == "mcs-based" and not r.get("solved")]
         if demo:
